@@ -2,5 +2,6 @@
 EXTENDS Prelude
 ASSUME LoopRefinesSpec
 ASSUME Laws
-ASSUME PrintT(<<"cases", Cardinality(CasesVec) + Cardinality(CasesScalar)>>)
+ASSUME JoinLaws
+ASSUME PrintT(<<"cases", Cardinality(CasesVec) + Cardinality(CasesScalar) + Cardinality(CasesStr)>>)
 =============================================================================
